@@ -190,10 +190,14 @@ class Union():
             np.log(gmm.weights_[i]) for i in range(2)]).T
 
         labels = np.argmax(p, axis=1)
-        # If one of the clusters has less than n_points_min members, re-assign
-        # the most likely members from the larger cluster to the smaller one.
-        if not np.all(np.bincount(labels) >= self.n_points_min):
-            label = np.argmin(np.bincount(labels))
+        # If one of the clusters has less than n_points_min members, assign
+        # the n_points_min most likely members to the smaller cluster and all
+        # other points to the larger one. This way, both clusters have at
+        # least n_points_min members.
+        n_labels = np.bincount(labels, minlength=2)
+        if not np.all(n_labels >= self.n_points_min):
+            label = np.argmin(n_labels)
+            labels[:] = 1 - label
             labels[np.argsort(-p[:, label])[:self.n_points_min]] = label
 
         new_bounds = []
